@@ -565,6 +565,11 @@ func (in *Interp) Call(fn *ssa.Function, args []aval) CEResult {
 }
 
 func (in *Interp) call(fn *ssa.Function, args []aval, depth int) (rets []aval, panicked, ok bool) {
+	return in.callFV(fn, args, nil, depth)
+}
+
+// callFV: call of a closure, fvs are the values bound to its free variables.
+func (in *Interp) callFV(fn *ssa.Function, args []aval, fvs []aval, depth int) (rets []aval, panicked, ok bool) {
 	if depth > 8 || fn.Blocks == nil {
 		in.fail("call depth exceeded or external function " + fn.String())
 		return nil, false, false
@@ -577,6 +582,11 @@ func (in *Interp) call(fn *ssa.Function, args []aval, depth int) (rets []aval, p
 	fr := &frame{fn: fn, env: map[ssa.Value]aval{}}
 	for i, p := range fn.Params {
 		fr.env[p] = args[i]
+	}
+	for i, fv := range fn.FreeVars {
+		if i < len(fvs) {
+			fr.env[fv] = fvs[i]
+		}
 	}
 	b := fn.Blocks[0]
 	var prev *ssa.BasicBlock
@@ -713,6 +723,12 @@ func (in *Interp) call(fn *ssa.Function, args []aval, depth int) (rets []aval, p
 					return nil, true, true
 				}
 				fr.env[x] = base.tup[idx]
+			case *ssa.MakeClosure:
+				cl := aval{k: kFn, fn: x.Fn.(*ssa.Function)}
+				for _, bnd := range x.Bindings {
+					cl.tup = append(cl.tup, in.get(fr, bnd))
+				}
+				fr.env[x] = cl
 			case *ssa.MakeMap:
 				fr.env[x] = aval{k: kMap, typ: x.Type(), m: &amap{entries: map[string]aval{}}}
 			case *ssa.MapUpdate:
@@ -960,14 +976,51 @@ func (in *Interp) doCall(fr *frame, x *ssa.Call, depth int) (res aval, panicked,
 		return aUnknown, false, true
 	}
 	callee := cc.StaticCallee()
+	var bound []aval
+	if fv := in.get(fr, cc.Value); fv.k == kFn && fv.fn != nil && len(fv.tup) > 0 {
+		callee, bound = fv.fn, fv.tup
+	}
 	if callee == nil {
 		// call of a function value
 		fv := in.get(fr, cc.Value)
 		if fv.k == kFn && fv.fn != nil {
-			callee = fv.fn
+			callee, bound = fv.fn, fv.tup
 		} else {
 			return aUnknown, false, true
 		}
+	}
+	if callee.Pkg != nil && callee.Pkg.Pkg.Path() == "sort" && callee.Name() == "Search" && len(cc.Args) == 2 {
+		// sort.Search(n, f): the binary search of the standard library, f evaluated by the interpreter
+		n, okN := in.get(fr, cc.Args[0]).Int()
+		f := in.get(fr, cc.Args[1])
+		if !okN || f.k != kFn || f.fn == nil || n < 0 || n > 1<<20 {
+			return aUnknown, false, true
+		}
+		i, j := int64(0), n
+		for i < j {
+			h := int64(uint64(i+j) >> 1)
+			r, pan, ok := in.callFV(f.fn, []aval{aInt(h, types.Typ[types.Int])}, f.tup, depth+1)
+			if !ok {
+				return aUnknown, false, false
+			}
+			if pan {
+				return aUnknown, true, true
+			}
+			bv, okB := aUnknown.Bool()
+			if len(r) == 1 {
+				bv, okB = r[0].Bool()
+			}
+			if !okB {
+				in.fail("sort.Search: undecided predicate")
+				return aUnknown, false, false
+			}
+			if !bv {
+				i = h + 1
+			} else {
+				j = h
+			}
+		}
+		return aInt(i, x.Type()), false, true
 	}
 	if callee.Pkg != nil {
 		pp := callee.Pkg.Pkg.Path()
@@ -982,7 +1035,7 @@ func (in *Interp) doCall(fr *frame, x *ssa.Call, depth int) (res aval, panicked,
 	for _, a := range cc.Args {
 		as = append(as, in.get(fr, a))
 	}
-	r, pan, ok := in.call(callee, as, depth+1)
+	r, pan, ok := in.callFV(callee, as, bound, depth+1)
 	if !ok {
 		return aUnknown, false, false
 	}
